@@ -2163,6 +2163,23 @@ class PyCdlib:
                             ino.num_udf += 1
                             next_entry.inode = ino
 
+    def _open_fp_checked(self, fp):
+        # type: (IO) -> None
+        """
+        An internal method to open an existing ISO, translating the low-level
+        errors that a damaged or truncated ISO can provoke while parsing (short
+        reads, out-of-range lengths and extents) into PyCdlibInvalidISO.
+
+        Parameters:
+         fp - The file object containing the ISO to open up.
+        Returns:
+         Nothing.
+        """
+        try:
+            self._open_fp(fp)
+        except (struct.error, IndexError, KeyError, UnicodeError) as exc:
+            raise pycdlibexception.PyCdlibInvalidISO('Invalid ISO: %s: %s' % (type(exc).__name__, exc))
+
     def _open_fp(self, fp):
         # type: (IO) -> None
         """
@@ -4082,7 +4099,7 @@ class PyCdlib:
         fp = open(filename, mode)  # pylint: disable=consider-using-with,unspecified-encoding
         self._managing_fp = True
         try:
-            self._open_fp(fp)
+            self._open_fp_checked(fp)
         except Exception:
             fp.close()
             raise
@@ -4104,7 +4121,7 @@ class PyCdlib:
         if self._initialized:
             raise pycdlibexception.PyCdlibInvalidInput('This object already has an ISO; either close it or create a new object')
 
-        self._open_fp(fp)
+        self._open_fp_checked(fp)
 
     def get_file_from_iso(self, local_path, **kwargs):
         # type: (str, Union[str, int]) -> None
